@@ -312,7 +312,7 @@ end generators
 
 Each density is a product of a few factors (`*_factors_prod`, `PewTheorems/C18.lean`).  A floating-point evaluation
 multiplies them in some order; every intermediate value is the product of a sub-collection of the factors
-(`subProducts`).  `robustFactors`: every such product lies between 64 steps of the subnormal grid and 2¹⁰⁰⁰ — then no
+(`subProducts`).  `robustFactors`: every such product lies between 8 steps of the subnormal grid and 2¹⁰⁰⁰ — then no
 order of multiplication underflows to 0 or overflows, and the sampled density is a positive double however small
 (normal or SUBNORMAL).  This is how the check decides "the float sum of the densities is positive" for kernels in
 the far tail without looking at the implementation's intermediate values. -/
@@ -348,8 +348,9 @@ def subProducts : List Rat → List Rat
   | [] => [1]
   | f :: fs => subProducts fs ++ (subProducts fs).map (f * ·)
 
-/-- 64 steps of the subnormal grid of binary64 (`2⁻¹⁰⁷⁴` is the smallest positive double) -/
-def tailLo : Rat := 64 / 2 ^ 1074
+/-- 8 steps of the subnormal grid of binary64 (`2⁻¹⁰⁷⁴` is the smallest positive double; a product of at most four
+factors is off by at most four steps there, one per rounding) -/
+def tailLo : Rat := 8 / 2 ^ 1074
 /-- `2¹⁰⁰⁰`, a factor `2²⁴` below the overflow threshold of binary64 -/
 def tailHi : Rat := 2 ^ 1000
 
